@@ -142,7 +142,7 @@ def run(tier, res, force_search=False):
     lean_ok = C.lean_phase(res, PROP, GEN, TARGETS)
 
     n_kernel = 60 if tier == "quick" else 400
-    n_skel = 24 if tier == "quick" else 150
+    n_skel = 36 if tier == "quick" else 180
     if force_search or not lean_ok:
         n_kernel *= 3
 
